@@ -36,6 +36,7 @@ h_pn_signed(void)
 	errno = 0;
 	rv = parsenum_signed(str, min, max, base, trailing);
 	PN_NATIVE_GHOSTS(str, base);
+	__CPROVER_assert(g_num_sptr == str, "C16 parsenum: the conversion was applied to the given string");
 
 	__CPROVER_assert(!(errno == 0) || (g_num_nd && !g_num_ovf && NUM_W(min) <= NUM_V && NUM_V <= NUM_W(max) &&
 	    NUM_W(rv) == NUM_V),
